@@ -33,7 +33,11 @@
                           package-level mutex (released on every path since the fix ee9fbaa); the file is
                           opened and stat'ed on every call and the cached parse is used only while the file
                           has the modification time and size it was read with (the model identifies a
-                          version of a file with its contents: a changed file has a changed stamp)
+                          version of a file with its contents: a changed file has a changed stamp); the file
+                          is parsed into a temporary map and the table entry is stored only after parseHtpasswd
+                          returned without error: a file with a damaged line leaves NOTHING in the table, not
+                          even the entries in front of that line ([h_users] / [h_bad] / [h_after], [parse_ht];
+                          [get_matcher_early] is the variant that stores the entry first)
      httpserver/roller.go + logger.go  the `log` startup callback opens the file and takes the roller of that
                           file from a package-level map; the first settings registered for a file stick.
 
@@ -42,8 +46,12 @@ Require Import V.Lib.
 Open Scope N_scope.
 
 (* ---------------------------------------------------------------- environment (file system, ports) *)
-Record htfile := { h_present : bool; h_users : list (N * N); h_bad : bool }.
-Definition ht_missing : htfile := {| h_present := false; h_users := []; h_bad := false |}.
+(* an htpasswd file as parseHtpasswd reads it, line by line: [h_users] are the entries BEFORE the first line it
+   rejects (all the entries when there is none), [h_bad] says that there is such a line (no separator, or a hash
+   that one of the password parsers reports an error for), [h_after] are the entries behind it - never read:
+   the parser returns at the damaged line.  What it has read up to there is in the map it was handed. *)
+Record htfile := { h_present : bool; h_users : list (N * N); h_bad : bool; h_after : list (N * N) }.
+Definition ht_missing : htfile := {| h_present := false; h_users := []; h_bad := false; h_after := [] |}.
 
 Fixpoint assoc {B} (k : N) (l : list (N * B)) : option B :=
   match l with
@@ -142,7 +150,11 @@ Definition users_eqb (a b : list (N * N)) : bool :=
   list_beq (fun x y => (fst x =? fst y) && (snd x =? snd y)) a b.
 (* same modification time and size: the same version of the file *)
 Definition htfile_eqb (a b : htfile) : bool :=
-  Bool.eqb (h_present a) (h_present b) && users_eqb (h_users a) (h_users b) && Bool.eqb (h_bad a) (h_bad b).
+  Bool.eqb (h_present a) (h_present b) && users_eqb (h_users a) (h_users b) && Bool.eqb (h_bad a) (h_bad b)
+  && users_eqb (h_after a) (h_after b).
+
+(* parseHtpasswd(pm, file): the entries it puts into [pm], in file order, and whether it returns an error *)
+Definition parse_ht (h : htfile) : list (N * N) * bool := (h_users h, h_bad h).
 
 Definition get_matcher_gen (unlock_on_error : bool) (e : env) (g : gstate) (f u : N)
   : outcome * gstate * option N :=
@@ -167,6 +179,31 @@ Definition get_matcher_gen (unlock_on_error : bool) (e : env) (g : gstate) (f u 
           else look (set_htcache g ((f, h) :: g_htcache g)) (h_users h)
       end.
 Definition get_matcher := get_matcher_gen true.
+
+(* the same function with the table entry stored BEFORE the file is parsed and the parser filling the entry's map
+   in place (a seeded "no temporary map" tidy-up, kept to document that defect): what was read up to a damaged
+   line stays in the table, stamped with the version of the file whose load was REJECTED, and answers the next
+   call for the untouched file *)
+Definition get_matcher_early (e : env) (g : gstate) (f u : N) : outcome * gstate * option N :=
+  if g_htlock g then (RHang, g, None)
+  else
+    let fail (g' : gstate) := (RErr, set_htlock g' false, None) in
+    let h := env_get e f in
+    if negb (h_present h) then fail g
+    else
+      let look (g' : gstate) (users : list (N * N)) :=
+        match assoc u users with
+        | Some pw => (ROk, g', Some pw)
+        | None => (RErr, g', None)
+        end in
+      let read (g' : gstate) :=
+        let g1 := set_htcache g' ((f, h) :: g_htcache g') in
+        let '(users, bad) := parse_ht h in
+        if bad then fail g1 else look g1 users in
+      match assoc f (g_htcache g) with
+      | Some h' => if htfile_eqb h' h then look g (fst (parse_ht h')) else read g
+      | None => read g
+      end.
 
 (* ---------------------------------------------------------------- executeDirectives *)
 Record lstate := { l_auth : option (N * N); l_startups : list (N * N * bool); l_log : option N }.
@@ -558,33 +595,50 @@ Definition bounded (o : obs) : bool :=
 Definition needs_instance (m : mode) : bool :=
   match m with Reload | Sigusr1 => true | _ => false end.
 
-Fixpoint spec_hist (e : env) (h : list (op * bool)) (prev : obs) (full ref : list obs) : bool :=
+(* "The outcome of loading a configuration depends only on that configuration and the environment, not on earlier
+   failed attempts", on observations: [Some (ec, (fres, fec))] = the class of the error message of this attempt
+   in the history, and the result and error class of the SAME attempt made by a process that ran the same
+   history without the attempts on invalid configurations before it (measured for every attempt on an invalid
+   configuration that comes after another one; for valid configurations that is [as_if]).  Classes: 0 none,
+   1 contained panic, 2 loader, 3 htpasswd user not found, 4 htpasswd does not parse, 5 htpasswd cannot be
+   opened, 6 listen, 7 startup callback, 8 anything else *)
+Definition fresh_ok (o : obs) (f : option (N * (N * N))) : bool :=
+  match f with
+  | None => true
+  | Some (ec, (fres, fec)) => (o_res o =? fres) && (ec =? fec)
+  end.
+
+Fixpoint spec_hist (e : env) (h : list (op * bool)) (prev : obs) (full ref : list obs)
+                   (fresh : list (option (N * (N * N)))) : bool :=
   match h, full, ref with
   | [], [], _ => true
-  | (OWrite f hf, _) :: r, o :: fr, _ :: rr => frame prev o && insts_live o && spec_hist (env_set e f hf) r o fr rr
+  | (OWrite f hf, _) :: r, o :: fr, _ :: rr =>
+      frame prev o && insts_live o && spec_hist (env_set e f hf) r o fr rr (tl fresh)
   | (OAttempt m c, _) :: r, o :: fr, ro :: rr =>
       bounded o
       && (if o_res o =? 0 then true else frame prev o)
       && (if attempt_valid m e c
           then as_if o ro && (if needs_instance m then true else o_res o =? 0)
           else negb (o_res o =? 0))
+      && fresh_ok o (hd None fresh)
       && hooks_live o && insts_live o
-      && spec_hist e r o fr rr
+      && spec_hist e r o fr rr (tl fresh)
   | (OPanic _ _, _) :: r, o :: fr, _ :: rr =>     (* never a valid attempt: it must fail and leave nothing behind *)
-      bounded o && negb (o_res o =? 0) && frame prev o && hooks_live o && insts_live o && spec_hist e r o fr rr
+      bounded o && negb (o_res o =? 0) && frame prev o && fresh_ok o (hd None fresh)
+      && hooks_live o && insts_live o && spec_hist e r o fr rr (tl fresh)
   | _, _, _ => false      (* the history was not completed (hang, crash) or the traces are malformed *)
   end.
 
 (* ---------------------------------------------------------------- cases *)
 Inductive case :=
-| CHist (e0 : env) (h : list (op * bool)) (o0 : obs) (full ref : list obs).
+| CHist (e0 : env) (h : list (op * bool)) (o0 : obs) (full ref : list obs) (fresh : list (option (N * (N * N)))).
 
 Definition judge (c : case) : N :=
   match c with
-  | CHist e0 h o0 full ref =>
+  | CHist e0 h o0 full ref fresh =>
       let agree := obs_agree (predict ROk false g0) o0 && accepts 1 h full [(e0, g0)]
                    && accepts 1 h ref [(e0, g0)] in
-      verdict agree (spec_hist e0 h o0 full ref)
+      verdict agree (spec_hist e0 h o0 full ref fresh)
   end.
 
 (* ---------------------------------------------------------------- vocabulary of the theorems *)
